@@ -1,9 +1,1008 @@
+// Package c14: NeoVM value serialization (VmValue.Serialize / Deserialize / BuildParamToNative and the
+// cycle/depth detector they share).
+//
+// Correspondence: heap graphs (shared sub-values, reference cycles at every position) and byte
+// strings, with the implementation's answers, evaluated against Model/VmValue.v.
+// Oracle (on the implementation only): acyclic values within the limits serialize and deserialize
+// back to an equal value; no byte string makes Deserialize panic and what it accepts respects the
+// limits; a value with a reachable cycle is refused with an error by Serialize and by
+// BuildParamToNative. Calls on cyclic values run in child processes (child.go).
 package c14
 
-import "verif/harness/hx"
+import (
+	"encoding/json"
+	"fmt"
+	"math/big"
+	"strings"
+	"time"
+
+	"github.com/ontio/ontology/common"
+	"github.com/ontio/ontology/vm/neovm/constants"
+	"github.com/ontio/ontology/vm/neovm/types"
+
+	"verif/harness/hx"
+)
 
 func init() { hx.Register("C14", Run) }
 
+type input struct {
+	Mode    string `json:"mode"` // graph | bytes
+	G       *Graph `json:"g,omitempty"`
+	Prefix  string `json:"prefix,omitempty"`  // hex, content of the sink before the call (acyclic graphs)
+	Prefill int    `json:"prefill,omitempty"` // zero bytes in the sink before the call (cyclic graphs)
+	Hex     string `json:"hex,omitempty"`
+	Kind    string `json:"kind,omitempty"`
+}
+
+type driver struct {
+	c       *hx.Ctx
+	pending []pendingProbe
+}
+
+type pendingProbe struct {
+	in    input
+	probe Probe
+}
+
+// ---------- acyclic graphs: in process ----------
+
+func sobs(errName string, out []byte) string {
+	if errName == "" {
+		return "(SOk " + hx.CoqBytes(out) + ")"
+	}
+	return "(SErr " + errName + ")"
+}
+
+func (d *driver) doGraph(g Graph, kind string, prefix []byte) {
+	c := d.c
+	in := input{Mode: "graph", G: &g, Prefix: hx.Hex(prefix), Kind: kind}
+	if g.cyclic() {
+		d.queueCyclic(g, kind)
+		return
+	}
+	c.Eval()
+	b := g.build()
+	heap := g.coqHeap(b)
+	root := coqHval(g.Root)
+	depth := g.depth()
+	lim := g.limits()
+	det := g.orderFree()
+	fuel := depth + 2
+	c.Count("graph:" + kind)
+	c.Count(fmt.Sprintf("graph:depth<=%d", bucket(depth)))
+	c.Count(fmt.Sprintf("graph:objects<=%d", bucket(len(g.Objs))))
+	if !det {
+		c.Count("graph:order-dependent-detector")
+	}
+	if len(g.Objs) > 1 {
+		c.Nontrivial("g" + heap + root)
+	}
+	c.Sample(map[string]interface{}{"kind": "graph:" + kind, "graph": g})
+
+	// detector
+	var ans bool
+	var derr error
+	if p, msg := hx.Recover(func() { ans, derr = b.root.CircularRefAndDepthDetection() }); p {
+		c.Fail("panic:detector", "CircularRefAndDepthDetection panicked", in, msg, "an answer")
+		return
+	}
+	if derr != nil {
+		c.Fail("detector:error", "CircularRefAndDepthDetection returned an error on a well-typed value", in, derr.Error(), nil)
+		return
+	}
+	c.Case(fmt.Sprintf("CDetect %s (%s) %s %s", heap, root, hx.CoqBool(det), hx.CoqBool(ans)), in)
+
+	// Serialize
+	sink := common.NewZeroCopySink(nil)
+	sink.WriteBytes(prefix)
+	var serr error
+	if p, msg := hx.Recover(func() { serr = b.root.Serialize(sink) }); p {
+		c.Fail("panic:serialize", "Serialize panicked", in, msg, "bytes or an error")
+		return
+	}
+	sname := serErrName(serr)
+	if strings.HasPrefix(sname, "other:") {
+		c.Fail("serialize:unknown-error", "Serialize returned an error outside the modelled set", in, sname, nil)
+		return
+	}
+	out := append([]byte{}, sink.Bytes()...)
+	c.Count("serialize:" + orOK(sname))
+	c.Case(fmt.Sprintf("CSer %s (%s) %s %d%%nat %s %s", heap, root, hx.CoqBytes(prefix), fuel, hx.CoqBool(det), sobs(sname, out)), in)
+
+	// oracle: acceptance within the limits. "Within the limits" on the specification side: nesting at
+	// most MAX_STRUCT_DEPTH, no interop value, output within MAX_BYTEARRAY_SIZE.
+	if serr != nil && depth <= types.MAX_STRUCT_DEPTH && !lim.interop && len(prefix) == 0 && lim.nodes < 2000 && sname != "ESize" {
+		c.Fail("roundtrip:refused-within-limits", "an acyclic value nested no deeper than MAX_STRUCT_DEPTH was refused by Serialize", in, sname, "serialized bytes")
+	}
+	// oracle: round trip
+	if serr == nil {
+		enc := out[len(prefix):]
+		within := depth <= types.MAX_COUNT && lim.maxList <= constants.MAX_ARRAY_SIZE && lim.maxIntMag <= constants.MAX_INT_SIZE
+		var back types.VmValue
+		var rerr error
+		src := common.NewZeroCopySource(enc)
+		if p, msg := hx.Recover(func() { rerr = back.Deserialize(src) }); p {
+			c.Fail("panic:deserialize", "Deserialize panicked on Serialize's own output", in, msg, "the value")
+			return
+		}
+		switch {
+		case within && rerr != nil:
+			c.Fail("roundtrip:decode-error", "Serialize's output for a value within the limits is refused by Deserialize", in, rerr.Error(), "the value")
+		case within && src.Len() != 0:
+			c.Fail("roundtrip:trailing", "Deserialize left bytes of Serialize's output unread", in, src.Len(), 0)
+		case within:
+			budget := 1 << 22
+			t := observe(&back, &budget)
+			why := ""
+			if !g.equalValue(g.Root, t, &why) {
+				c.Fail("roundtrip:not-equal", "the value read back differs from the value written", in, why, "an equal value")
+			}
+			c.Count("roundtrip:ok")
+		case rerr == nil:
+			c.Count("roundtrip:outside-limits-still-decodes")
+		default:
+			c.Count("roundtrip:outside-limits-refused:" + deserErrName(rerr))
+		}
+		// and the decoder's model on these bytes
+		if len(enc) <= 6000 {
+			d.doBytes(enc, "serialized")
+		}
+	}
+
+	// BuildParamToNative
+	sink2 := common.NewZeroCopySink(nil)
+	sink2.WriteBytes(prefix)
+	var berr error
+	if p, msg := hx.Recover(func() { berr = b.root.BuildParamToNative(sink2) }); p {
+		c.Fail("panic:BuildParamToNative", "BuildParamToNative panicked", in, msg, "bytes or an error")
+		return
+	}
+	bname := serErrName(berr)
+	if strings.HasPrefix(bname, "other:") {
+		c.Fail("BuildParamToNative:unknown-error", "BuildParamToNative returned an error outside the modelled set", in, bname, nil)
+		return
+	}
+	c.Count("build:" + orOK(bname))
+	c.Case(fmt.Sprintf("CBuild %s (%s) %s %d%%nat %s %s", heap, root, hx.CoqBytes(prefix), fuel, hx.CoqBool(det), sobs(bname, sink2.Bytes())), in)
+}
+
+func orOK(s string) string {
+	if s == "" {
+		return "ok"
+	}
+	return s
+}
+
+func bucket(n int) int {
+	for _, b := range []int{0, 1, 2, 4, 8, 10, 11, 16, 64, 1024} {
+		if n <= b {
+			return b
+		}
+	}
+	return 1 << 20
+}
+
+// ---------- cyclic graphs: child processes ----------
+
+// firstChainEndless: following first elements from the root (arrays and structs: element 0; a map
+// with exactly one entry: its value) never reaches a primitive or an empty container within
+// MAX_STRUCT_DEPTH+2 steps. ok=false when a map with several entries is met (order dependent).
+func (g *Graph) firstChainEndless() (endless bool, ok bool) {
+	v := g.Root
+	for i := 0; i < types.MAX_STRUCT_DEPTH+2; i++ {
+		if !v.isRef() {
+			return false, true
+		}
+		o := g.Objs[v.Addr]
+		if o.Kind == "map" {
+			if len(o.Vals) == 0 {
+				return false, true
+			}
+			if len(o.Vals) > 1 {
+				return false, false
+			}
+			v = o.Vals[0]
+			continue
+		}
+		if len(o.Items) == 0 {
+			return false, true
+		}
+		v = o.Items[0]
+	}
+	return true, true
+}
+
+func (d *driver) queueCyclic(g Graph, kind string) {
+	// Serialize starts from an almost full sink, so that the size limit ends the recursion after a
+	// few levels (with an empty sink it takes ~2*10^5 nested calls, see queueWitness)
+	prefill := constants.MAX_BYTEARRAY_SIZE - 6 - d.c.Intn(20)
+	for _, e := range []string{"Serialize", "BuildParamToNative"} {
+		pf := prefill
+		if e != "Serialize" {
+			pf = 0
+		}
+		d.pending = append(d.pending, pendingProbe{
+			in:    input{Mode: "graph", G: &g, Prefill: prefill, Kind: kind},
+			probe: Probe{G: g, Entry: e, Prefill: pf},
+		})
+	}
+}
+
+// queueWitness: the documented witness w = [1, w], on every entry point that shares the detector.
+func (d *driver) queueWitness(full bool) {
+	g := Graph{Objs: []Obj{{Kind: "arr", Items: []Val{vInt(1), vRef("arr", 0)}}}, Root: vRef("arr", 0)}
+	prefill := constants.MAX_BYTEARRAY_SIZE - 8
+	for _, e := range []string{"Serialize", "BuildParamToNative", "Stringify", "Dump"} {
+		pf := prefill
+		if e != "Serialize" {
+			pf = 0
+		}
+		d.pending = append(d.pending, pendingProbe{
+			in:    input{Mode: "graph", G: &g, Prefill: prefill, Kind: "witness"},
+			probe: Probe{G: g, Entry: e, Prefill: pf},
+		})
+	}
+	if full {
+		// empty sink: about 2*10^5 nested calls before the size limit stops it (seconds, hundreds of MB of stack)
+		d.pending = append(d.pending, pendingProbe{
+			in:    input{Mode: "graph", G: &g, Prefill: 0, Kind: "witness-empty-sink"},
+			probe: Probe{G: g, Entry: "Serialize", Prefill: 0},
+		})
+	}
+}
+
+func (d *driver) runPending() {
+	c := d.c
+	if len(d.pending) == 0 {
+		return
+	}
+	probes := make([]Probe, len(d.pending))
+	for i, p := range d.pending {
+		probes[i] = p.probe
+	}
+	t0 := time.Now()
+	results := runInChildren(probes, 120*time.Second)
+	c.Note(fmt.Sprintf("%d calls on cyclic values ran in child processes (stack capped at 8 MiB) in %d ms", len(probes), time.Since(t0).Milliseconds()))
+	coqCycSer := 0
+	for i, p := range d.pending {
+		r := results[i]
+		g := p.probe.G
+		c.Eval()
+		entry := p.probe.Entry
+		endless, chainOK := g.firstChainEndless()
+		pos := "non-first-element"
+		if endless {
+			pos = "first-element"
+		}
+		if !chainOK {
+			pos = "map-order"
+		}
+		c.Count("cyclic:" + entry + ":" + pos)
+		outcome := orOK(r.Err)
+		if r.Crashed {
+			outcome = "crash"
+		}
+		if r.Timeout {
+			outcome = "timeout"
+		}
+		c.Count("cyclic:" + entry + ":" + outcome)
+		c.Nontrivial(fmt.Sprintf("cyc%v%s%d", g, entry, p.probe.Prefill))
+		if i < 2 {
+			c.Sample(map[string]interface{}{"kind": "cyclic:" + p.in.Kind, "graph": g, "entry": entry, "outcome": outcome})
+		}
+		// ----- oracle: a value with a reachable cycle is refused with an error -----
+		switch {
+		case r.Crashed || r.Timeout:
+			cls := fmt.Sprintf("cycle:%s:%s", pos, entry)
+			c.Fail(cls, "a call on a value with a reference cycle did not return (the process died: "+r.Detail+")", p.in,
+				map[string]interface{}{"entry": entry, "crashed": r.Crashed, "timeout": r.Timeout, "stderr": r.Detail}, "an error result")
+		case r.Err == "":
+			c.Fail(fmt.Sprintf("cycle-accepted:%s:%s", pos, entry), "a value with a reference cycle was accepted", p.in,
+				map[string]interface{}{"entry": entry, "outlen": r.OutLen}, "an error result")
+		case endless && r.Err != "ECircular":
+			c.Fail(fmt.Sprintf("cycle-late:%s:%s", pos, entry), "a cycle through first elements was not refused by the detector", p.in, r.Err, "ECircular")
+		}
+		if entry == "Serialize" && r.Err == "ESize" {
+			c.Count("cyclic:Serialize:stopped-only-by-size-limit")
+		}
+		// ----- correspondence -----
+		if entry != "Serialize" && entry != "BuildParamToNative" {
+			continue
+		}
+		b := g.build()
+		heap := g.coqHeap(b)
+		root := coqHval(g.Root)
+		det := g.orderFree()
+		if entry == "BuildParamToNative" {
+			// detector answer at the top (bounded, safe in process)
+			ans, _ := b.root.CircularRefAndDepthDetection()
+			c.Case(fmt.Sprintf("CDetect %s (%s) %s %s", heap, root, hx.CoqBool(det), hx.CoqBool(ans)), p.in)
+			if r.Crashed {
+				c.Case(fmt.Sprintf("CDiverge %s (%s) 300%%nat", heap, root), p.in)
+			} else if !r.Timeout && r.Err != "" && !strings.HasPrefix(r.Err, "other:") {
+				c.Case(fmt.Sprintf("CBuild %s (%s) [] 64%%nat %s (SErr %s)", heap, root, hx.CoqBool(det), r.Err), p.in)
+			}
+			continue
+		}
+		if !r.Crashed && !r.Timeout && r.Err != "" && !strings.HasPrefix(r.Err, "other:") && p.probe.Prefill > 0 {
+			// the prefilled sink is a megabyte of zeros in the model too: few of these
+			if r.Err == "ECircular" || coqCycSer < c.N(2, 12) {
+				if r.Err != "ECircular" {
+					coqCycSer++
+				}
+				c.Case(fmt.Sprintf("CSer %s (%s) (repeat 0 (N.to_nat %d)) 64%%nat %s (SErr %s)", heap, root, p.probe.Prefill, hx.CoqBool(det), r.Err), p.in)
+			}
+		}
+	}
+	d.pending = nil
+}
+
+// ---------- byte strings into Deserialize ----------
+
+func (d *driver) doBytes(b []byte, kind string) {
+	c := d.c
+	c.Eval()
+	in := input{Mode: "bytes", Hex: hx.Hex(b), Kind: kind}
+	var v types.VmValue
+	var err error
+	src := common.NewZeroCopySource(b)
+	if p, msg := hx.Recover(func() { err = v.Deserialize(src) }); p {
+		c.Fail("panic:deserialize", "Deserialize panicked on a byte string", in, msg, "a value or an error")
+		return
+	}
+	c.Count("bytes:" + kind)
+	c.Count(fmt.Sprintf("bytes:len<=%d", bucket(len(b))))
+	if err != nil {
+		name := deserErrName(err)
+		c.Count("deserialize:" + name)
+		if strings.HasPrefix(name, "other:") {
+			c.Fail("deserialize:unknown-error", "Deserialize returned an error outside the modelled set", in, name, nil)
+			return
+		}
+		if len(b) > 2 {
+			c.Nontrivial("b" + in.Hex)
+		}
+		c.Case(fmt.Sprintf("CDeser %s (DObsErr %s)", hx.CoqBytes(b), name), in)
+		return
+	}
+	c.Count("deserialize:ok")
+	budget := 1 << 22
+	t := observe(&v, &budget)
+	// oracle: an accepted value respects the limits and all reads stayed in the buffer
+	maxDepth, maxList, maxInt := 0, 0, 0
+	t.treeLimits(0, &maxDepth, &maxList, &maxInt)
+	if maxDepth > types.MAX_COUNT || maxList > constants.MAX_ARRAY_SIZE || maxInt > constants.MAX_INT_SIZE || src.Pos() > uint64(len(b)) {
+		c.Fail("deserialize:limits", "Deserialize accepted a value outside the VM's limits", in,
+			map[string]int{"depth": maxDepth, "longest": maxList, "intbytes": maxInt}, "depth<=MAX_COUNT, arrays<=MAX_ARRAY_SIZE, integers<=MAX_INT_SIZE bytes")
+	}
+	// oracle: what was accepted, when Serialize takes it back, decodes to the same observation
+	if kind != "serialized" && maxDepth <= types.MAX_STRUCT_DEPTH {
+		sink := common.NewZeroCopySink(nil)
+		var serr error
+		if p, msg := hx.Recover(func() { serr = v.Serialize(sink) }); p {
+			c.Fail("panic:serialize", "Serialize panicked on a decoded value", in, msg, nil)
+			return
+		}
+		if serr == nil {
+			var v2 types.VmValue
+			if err2 := v2.Deserialize(common.NewZeroCopySource(sink.Bytes())); err2 != nil {
+				c.Fail("roundtrip:decode-error", "re-serialized decoded value is refused", in, err2.Error(), nil)
+			} else {
+				budget := 1 << 22
+				t2 := observe(&v2, &budget)
+				if t2.coq() != t.coq() {
+					c.Fail("roundtrip:not-equal", "decode(encode(decode(b))) differs from decode(b)", in, t2.coq(), t.coq())
+				}
+			}
+		}
+	}
+	if len(b) > 2 {
+		c.Nontrivial("b" + in.Hex)
+	}
+	if kind != "serialized" {
+		c.Sample(map[string]interface{}{"kind": "bytes:" + kind, "hex": in.Hex})
+	}
+	c.Case(fmt.Sprintf("CDeser %s (DObsOk (%s) %d)", hx.CoqBytes(b), t.coq(), src.Len()), in)
+}
+
+func (d *driver) doKey(v Val) {
+	c := d.c
+	c.Eval()
+	b := (&built{}).val(v)
+	k, err := b.GetMapKey()
+	if err != nil {
+		c.Fail("mapkey:error", "GetMapKey failed on a primitive", v, err.Error(), nil)
+		return
+	}
+	if string(specImage(v)) != k {
+		c.Fail("mapkey:image", "GetMapKey differs from the minimal two's-complement / byte image", v, hx.Hex([]byte(k)), hx.Hex(specImage(v)))
+	}
+	c.Count("mapkey:" + v.K)
+	c.Case(fmt.Sprintf("CKey (%s) %s", coqPrim(v), hx.CoqBytes([]byte(k))), v)
+}
+
+// ---------- generators ----------
+
+var intBoundaries = []string{"0", "1", "-1", "127", "128", "-128", "-129", "255", "256", "32767", "32768", "-32768", "-32769",
+	"9223372036854775807", "-9223372036854775808"}
+
+func pow2(n uint) *big.Int { return new(big.Int).Lsh(big.NewInt(1), n) }
+
+func (d *driver) randPrim(allowOversize bool) Val {
+	c := d.c
+	switch c.Intn(10) {
+	case 0, 1, 2:
+		n := []int{0, 1, 2, 3, 8, 20, 33}[c.Intn(7)]
+		if c.Intn(40) == 0 {
+			n = []int{252, 253, 300}[c.Intn(3)]
+		}
+		b := c.Bytes(n)
+		if n > 0 && c.Intn(3) == 0 {
+			b[n-1] = []byte{0, 0x7f, 0x80, 0xff}[c.Intn(4)]
+		}
+		return vBytes(b)
+	case 3:
+		return vBool(c.Intn(2) == 0)
+	case 4, 5, 6:
+		if c.Intn(2) == 0 {
+			z, _ := new(big.Int).SetString(intBoundaries[c.Intn(len(intBoundaries))], 10)
+			return vInt(z.Int64())
+		}
+		return vInt(int64(c.U64Boundary()))
+	case 7:
+		// bigintType outside int64
+		var z *big.Int
+		switch c.Intn(6) {
+		case 0:
+			z = pow2(63)
+		case 1:
+			z = new(big.Int).Sub(new(big.Int).Neg(pow2(63)), big.NewInt(1))
+		case 2:
+			z = new(big.Int).Sub(pow2(255), big.NewInt(1))
+		case 3:
+			z = new(big.Int).Neg(pow2(255))
+		case 4:
+			z = new(big.Int).Sub(pow2(256), big.NewInt(1)) // 32 magnitude bytes, 33 encoded bytes
+		default:
+			z = new(big.Int).SetBytes(c.Bytes(9 + c.Intn(23)))
+			if c.Intn(2) == 0 {
+				z.Neg(z)
+			}
+			if z.IsInt64() {
+				z = pow2(64)
+			}
+		}
+		return vBig(z)
+	case 8:
+		// bigintType holding a small number (not produced by the VM, but representable)
+		return vBig(big.NewInt(int64(c.Intn(300)) - 150))
+	default:
+		if allowOversize && c.Intn(6) == 0 {
+			z := pow2(256) // 33 magnitude bytes: Deserialize refuses
+			if c.Intn(2) == 0 {
+				z = new(big.Int).Neg(new(big.Int).Add(pow2(256), big.NewInt(5)))
+			}
+			return vBig(z)
+		}
+		return vInt(int64(c.Intn(5)))
+	}
+}
+
+// randAcyclic: objects 0..n-1, object i references only objects j > i (so no cycle), with repeated
+// references to the same object (sharing).
+func (d *driver) randAcyclic(nObjs int, maxItems int, interop bool) Graph {
+	c := d.c
+	var g Graph
+	kinds := []string{"arr", "arr", "struct", "map"}
+	for i := 0; i < nObjs; i++ {
+		g.Objs = append(g.Objs, Obj{Kind: kinds[c.Intn(len(kinds))]})
+	}
+	elem := func(i int) Val {
+		if i+1 < nObjs && c.Intn(5) < 2 {
+			j := i + 1 + c.Intn(nObjs-i-1)
+			if c.Intn(3) == 0 {
+				j = i + 1 // chains get deeper this way
+			}
+			return vRef(g.Objs[j].Kind, j)
+		}
+		if interop && c.Intn(30) == 0 {
+			return Val{K: "interop"}
+		}
+		return d.randPrim(true)
+	}
+	for i := range g.Objs {
+		n := c.Intn(maxItems + 1)
+		if g.Objs[i].Kind == "map" {
+			seen := map[string]bool{}
+			for k := 0; k < n; k++ {
+				key := d.randPrim(false)
+				img := string(specImage(key))
+				if seen[img] {
+					continue
+				}
+				seen[img] = true
+				g.Objs[i].Keys = append(g.Objs[i].Keys, key)
+				g.Objs[i].Vals = append(g.Objs[i].Vals, elem(i))
+			}
+			continue
+		}
+		for k := 0; k < n; k++ {
+			g.Objs[i].Items = append(g.Objs[i].Items, elem(i))
+		}
+	}
+	if nObjs == 0 {
+		g.Root = d.randPrim(true)
+	} else {
+		g.Root = vRef(g.Objs[0].Kind, 0)
+	}
+	return g
+}
+
+// chain: k containers nested through position pos (0 = first element), the innermost holding leaf.
+// With single-entry maps among the links when maps is set.
+func (d *driver) chain(k int, pos int, maps bool, leaf Val) Graph {
+	c := d.c
+	var g Graph
+	for i := 0; i < k; i++ {
+		kind := []string{"arr", "struct"}[c.Intn(2)]
+		if maps && pos == 0 && c.Intn(4) == 0 {
+			kind = "map"
+		}
+		g.Objs = append(g.Objs, Obj{Kind: kind})
+	}
+	for i := 0; i < k; i++ {
+		next := leaf
+		if i+1 < k {
+			next = vRef(g.Objs[i+1].Kind, i+1)
+		}
+		if g.Objs[i].Kind == "map" {
+			g.Objs[i].Keys = []Val{vInt(int64(i))}
+			g.Objs[i].Vals = []Val{next}
+			continue
+		}
+		var items []Val
+		for p := 0; p < pos; p++ {
+			items = append(items, vInt(int64(p)))
+		}
+		items = append(items, next)
+		if c.Intn(2) == 0 {
+			items = append(items, vBool(true))
+		}
+		g.Objs[i].Items = items
+	}
+	if k == 0 {
+		g.Root = leaf
+	} else {
+		g.Root = vRef(g.Objs[0].Kind, 0)
+	}
+	return g
+}
+
+// orderDependent: a map with two entries, one nested beyond the detector's depth through first
+// elements, one shallow: the detector's answer depends on Go's iteration order.
+func (d *driver) orderDependent() Graph {
+	deep := d.chain(types.MAX_STRUCT_DEPTH+1+d.c.Intn(2), 0, false, vInt(7))
+	g := Graph{Objs: append([]Obj{{Kind: "map"}}, nil...)}
+	// shift addresses of the chain by one
+	for _, o := range deep.Objs {
+		for i := range o.Items {
+			if o.Items[i].isRef() {
+				o.Items[i].Addr++
+			}
+		}
+		g.Objs = append(g.Objs, o)
+	}
+	g.Objs[0].Keys = []Val{vInt(1), vInt(2)}
+	g.Objs[0].Vals = []Val{vRef(deep.Root.K, deep.Root.Addr+1), vBytes([]byte("x"))}
+	g.Root = vRef("map", 0)
+	return g
+}
+
+// addCycle turns an acyclic graph into one with a reachable cycle by redirecting (or adding) one
+// element of a reachable object to an object that reaches it. first selects the element position.
+func (d *driver) addCycle(g Graph, first bool) (Graph, bool) {
+	c := d.c
+	if len(g.Objs) == 0 {
+		return g, false
+	}
+	// reachable objects in discovery order, with their ancestors-or-self (objects that reach them)
+	reach := map[int]map[int]bool{} // reach[a] = set of objects reachable from a (incl. a)
+	var from func(a int) map[int]bool
+	from = func(a int) map[int]bool {
+		if r, ok := reach[a]; ok {
+			return r
+		}
+		r := map[int]bool{a: true}
+		reach[a] = r
+		for _, ch := range g.children(vRef(g.Objs[a].Kind, a)) {
+			if ch.isRef() {
+				for x := range from(ch.Addr) {
+					r[x] = true
+				}
+			}
+		}
+		return r
+	}
+	if !g.Root.isRef() {
+		return g, false
+	}
+	all := from(g.Root.Addr)
+	var nodes []int
+	for a := 0; a < len(g.Objs); a++ {
+		if all[a] {
+			nodes = append(nodes, a)
+		}
+	}
+	j := nodes[c.Intn(len(nodes))]
+	// candidates i that reach j
+	var cands []int
+	for _, i := range nodes {
+		if from(i)[j] {
+			cands = append(cands, i)
+		}
+	}
+	i := cands[c.Intn(len(cands))]
+	back := vRef(g.Objs[i].Kind, i)
+	// deep copy of object j
+	o := g.Objs[j]
+	o.Items = append([]Val{}, o.Items...)
+	o.Keys = append([]Val{}, o.Keys...)
+	o.Vals = append([]Val{}, o.Vals...)
+	if o.Kind == "map" {
+		if len(o.Vals) == 0 || c.Intn(3) == 0 {
+			o.Keys = append(o.Keys, vBytes([]byte("cycle-key")))
+			o.Vals = append(o.Vals, back)
+		} else {
+			o.Vals[c.Intn(len(o.Vals))] = back
+		}
+	} else {
+		switch {
+		case first && len(o.Items) > 0:
+			o.Items[0] = back
+		case first:
+			o.Items = []Val{back}
+		case len(o.Items) == 0:
+			o.Items = []Val{d.randPrim(false), back}
+		case len(o.Items) == 1:
+			o.Items = append(o.Items, back)
+		default:
+			o.Items[1+c.Intn(len(o.Items)-1)] = back
+		}
+	}
+	objs := append([]Obj{}, g.Objs...)
+	objs[j] = o
+	ng := Graph{Objs: objs, Root: g.Root}
+	return ng, ng.cyclic()
+}
+
+// ---------- byte-string generators ----------
+
+func (d *driver) serializeSpec(g Graph) []byte {
+	sink := common.NewZeroCopySink(nil)
+	b := g.build()
+	if err := b.root.Serialize(sink); err != nil {
+		return nil
+	}
+	return append([]byte{}, sink.Bytes()...)
+}
+
+func (d *driver) mutate(b []byte) []byte {
+	c := d.c
+	b = append([]byte{}, b...)
+	tags := []byte{0x00, 0x01, 0x02, 0x03, 0x40, 0x80, 0x81, 0x82, 0xfd, 0xfe, 0xff}
+	switch c.Intn(8) {
+	case 0: // truncate
+		if len(b) > 0 {
+			b = b[:c.Intn(len(b))]
+		}
+	case 1: // flip a byte
+		if len(b) > 0 {
+			b[c.Intn(len(b))] ^= byte(1 << uint(c.Intn(8)))
+		}
+	case 2: // overwrite with a tag-like byte
+		if len(b) > 0 {
+			b[c.Intn(len(b))] = tags[c.Intn(len(tags))]
+		}
+	case 3: // insert
+		i := c.Intn(len(b) + 1)
+		b = append(b[:i], append([]byte{tags[c.Intn(len(tags))]}, b[i:]...)...)
+	case 4: // delete
+		if len(b) > 0 {
+			i := c.Intn(len(b))
+			b = append(b[:i], b[i+1:]...)
+		}
+	case 5: // trailing garbage
+		b = append(b, c.Bytes(1+c.Intn(3))...)
+	case 6: // bump a count byte
+		if len(b) > 1 {
+			b[1] += byte(1 + c.Intn(3))
+		}
+	default: // duplicate a slice
+		if len(b) > 2 {
+			i := c.Intn(len(b) - 1)
+			j := i + 1 + c.Intn(len(b)-i-1)
+			b = append(b[:j], append(append([]byte{}, b[i:j]...), b[j:]...)...)
+		}
+	}
+	return b
+}
+
+func varuint(v uint64) []byte {
+	s := common.NewZeroCopySink(nil)
+	s.WriteVarUint(v)
+	return s.Bytes()
+}
+
+func (d *driver) structuredBytes() ([]byte, string) {
+	c := d.c
+	nest := func(tag byte, k int, leaf []byte) []byte {
+		var b []byte
+		for i := 0; i < k; i++ {
+			b = append(b, tag, 1)
+		}
+		return append(b, leaf...)
+	}
+	switch c.Intn(14) {
+	case 0: // depth boundary of the decoder
+		k := types.MAX_COUNT - 1 + c.Intn(4)
+		return nest([]byte{0x80, 0x81}[c.Intn(2)], k, []byte{0x01, 0x01}), "depth-boundary"
+	case 1: // array size boundary
+		n := constants.MAX_ARRAY_SIZE - 1 + c.Intn(3)
+		b := append([]byte{[]byte{0x80, 0x81}[c.Intn(2)]}, varuint(uint64(n))...)
+		for i := 0; i < n; i++ {
+			b = append(b, 0x01, byte(i&1))
+		}
+		return b, "array-size-boundary"
+	case 2: // count >= 2^63: int(l) is negative, the loop does not run
+		b := []byte{[]byte{0x80, 0x81, 0x82}[c.Intn(3)], 0xff}
+		v := uint64(1)<<63 + uint64(c.Intn(3)) - 1
+		if c.Intn(3) == 0 {
+			v = ^uint64(0)
+		}
+		for i := 0; i < 8; i++ {
+			b = append(b, byte(v>>(8*uint(i))))
+		}
+		return append(b, 0x01, 0x01), "huge-count"
+	case 3: // non-minimal varuint count
+		return []byte{0x80, 0xfd, 0x02, 0x00, 0x01, 0x01, 0x01, 0x00}, "non-minimal-count"
+	case 4: // integer size boundary: 32 / 33 magnitude bytes, with and without sign padding
+		n := 31 + c.Intn(4)
+		body := c.Bytes(n)
+		body[n-1] = []byte{0x00, 0x7f, 0x80, 0xff, 0x01}[c.Intn(5)]
+		return append(append([]byte{0x02}, varuint(uint64(n))...), body...), "int-size-boundary"
+	case 5: // padded integers (non-canonical but accepted)
+		body := append(c.Bytes(1+c.Intn(3)), []byte{0, 0, 0}[:1+c.Intn(3)]...)
+		if c.Intn(2) == 0 {
+			body = []byte{0xff, 0xff, 0xff}[:1+c.Intn(3)]
+		}
+		return append(append([]byte{0x02}, varuint(uint64(len(body)))...), body...), "padded-int"
+	case 6: // map with duplicate / unsorted / same-image keys
+		b := []byte{0x82, 0x03}
+		keys := [][]byte{{0x02, 0x01, 0x05}, {0x00, 0x01, 0x05}, {0x02, 0x01, 0x03}, {0x01, 0x01}, {0x00, 0x01, 0x01}, {0x02, 0x00}, {0x00, 0x00}}
+		for i := 0; i < 3; i++ {
+			b = append(b, keys[c.Intn(len(keys))]...)
+			b = append(b, 0x02, 0x01, byte(i))
+		}
+		return b, "map-dup-keys"
+	case 7: // map with a container key
+		return []byte{0x82, 0x01, []byte{0x80, 0x81, 0x82}[c.Intn(3)], 0x00, 0x01, 0x01}, "map-container-key"
+	case 8: // irregular bool
+		return []byte{0x80, 0x02, 0x01, byte(c.Intn(4)), 0x01, byte(2 + c.Intn(250))}, "irregular-bool"
+	case 9: // byte array longer than the input
+		return append([]byte{0x00, 0xfe, 0xff, 0xff, 0xff, 0x7f}, c.Bytes(c.Intn(5))...), "bytes-overlong"
+	case 10: // unknown tags
+		return []byte{[]byte{0x03, 0x40, 0x83, 0x7f, 0xff}[c.Intn(5)], 0x01, 0x01}, "unknown-tag"
+	case 11: // map count larger than the data
+		return []byte{0x82, 0xfd, 0xff, 0xff, 0x01, 0x01, 0x01, 0x00}, "map-count-overlong"
+	case 12: // nested maps and structs, valid
+		return []byte{0x82, 0x01, 0x00, 0x01, 0x61, 0x81, 0x02, 0x82, 0x00, 0x80, 0x00}, "nested-valid"
+	default: // empty input and lone tags
+		return [][]byte{{}, {0x80}, {0x82}, {0x00}, {0x02}, {0x01}, {0x81, 0xfd}}[c.Intn(7)], "lone-tag"
+	}
+}
+
+// ---------- size-limit boundary (implementation only; megabyte values are not sent to Coq) ----------
+
+func (d *driver) sizeBoundary() {
+	c := d.c
+	max := constants.MAX_BYTEARRAY_SIZE
+	// a byte array of n bytes encodes to 1 + 5 + n bytes (n >= 65536)
+	for _, delta := range []int{-1, 0, 1} {
+		n := max - 6 + delta
+		c.Eval()
+		v, err := types.VmValueFromBytes(make([]byte, n))
+		if err != nil {
+			c.Fail("size-boundary:construct", "VmValueFromBytes refused a byte array below MAX_BYTEARRAY_SIZE", n, err.Error(), nil)
+			continue
+		}
+		sink := common.NewZeroCopySink(nil)
+		serr := v.Serialize(sink)
+		in := map[string]int{"bytearray_len": n, "encoded_len": n + 6}
+		if delta <= 0 {
+			if serr != nil {
+				c.Fail("size-boundary:refused", "a value whose encoding fits MAX_BYTEARRAY_SIZE was refused", in, serr.Error(), "accepted")
+				continue
+			}
+			var back types.VmValue
+			if rerr := back.Deserialize(common.NewZeroCopySource(sink.Bytes())); rerr != nil {
+				c.Fail("roundtrip:decode-error", "Serialize's output at the size limit is refused by Deserialize", in, rerr.Error(), nil)
+			} else if bb, _ := back.AsBytes(); len(bb) != n {
+				c.Fail("roundtrip:not-equal", "byte array at the size limit came back with another length", in, len(bb), n)
+			}
+			c.Count("size-boundary:accepted")
+		} else {
+			if serr == nil {
+				c.Fail("size-boundary:accepted-over-limit", "a value whose encoding exceeds MAX_BYTEARRAY_SIZE was accepted", in, sink.Size(), "ESize")
+			}
+			c.Count("size-boundary:refused")
+		}
+	}
+	// Deserialize: a byte array item of exactly MAX_BYTEARRAY_SIZE is accepted, one more is refused
+	for _, delta := range []int{0, 1} {
+		n := max + delta
+		c.Eval()
+		b := append([]byte{0x00}, varuint(uint64(n))...)
+		b = append(b, make([]byte, n)...)
+		var v types.VmValue
+		err := v.Deserialize(common.NewZeroCopySource(b))
+		if (err == nil) != (delta == 0) {
+			c.Fail("size-boundary:item", "Deserialize's byte array item limit is not MAX_BYTEARRAY_SIZE", n, fmt.Sprint(err), "accepted iff len <= MAX_BYTEARRAY_SIZE")
+		}
+		c.Count("size-boundary:item")
+	}
+}
+
+// ---------- run ----------
+
 func Run(c *hx.Ctx) {
 	c.CoqModule("Corr.C14")
+	d := &driver{c: c}
+	var in input
+	if c.ReplayInput(&in) && in.Mode != "" {
+		d.replay(in)
+		d.runPending()
+		return
+	}
+	for _, raw := range c.CorpusInputs() {
+		var r input
+		if json.Unmarshal(raw, &r) == nil && r.Mode != "" {
+			d.replay(r)
+		}
+	}
+	// the documented witness, on every run
+	d.queueWitness(!c.Quick())
+	d.sizeBoundary()
+
+	// key images
+	for i := 0; i < c.N(60, 400); i++ {
+		d.doKey(d.randPrim(true))
+	}
+	for _, s := range intBoundaries {
+		z, _ := new(big.Int).SetString(s, 10)
+		d.doKey(vInt(z.Int64()))
+		d.doKey(vBig(z))
+	}
+
+	// acyclic graphs
+	nG := c.N(420, 3000)
+	for i := 0; i < nG; i++ {
+		var prefix []byte
+		if c.Intn(6) == 0 {
+			prefix = c.Bytes(1 + c.Intn(6))
+		}
+		switch {
+		case i%10 < 5:
+			d.doGraph(d.randAcyclic(c.Intn(7), 4, i%50 == 3), "random", prefix)
+		case i%10 == 5:
+			// detector depth boundary through first elements
+			k := types.MAX_STRUCT_DEPTH - 1 + c.Intn(4)
+			d.doGraph(d.chain(k, 0, true, d.randPrim(false)), "first-chain-boundary", prefix)
+		case i%10 == 6:
+			// deep nesting through a non-first position: the detector does not see it
+			k := types.MAX_STRUCT_DEPTH + c.Intn(30)
+			d.doGraph(d.chain(k, 1+c.Intn(2), false, d.randPrim(false)), "deep-non-first", prefix)
+		case i%10 == 7:
+			d.doGraph(d.orderDependent(), "order-dependent", nil)
+		case i%10 == 8:
+			// wide: many references to one shared object
+			g := d.randAcyclic(3, 3, false)
+			if len(g.Objs) == 3 && g.Objs[0].Kind != "map" {
+				for k := 0; k < 3+c.Intn(6); k++ {
+					g.Objs[0].Items = append(g.Objs[0].Items, vRef(g.Objs[2].Kind, 2))
+				}
+			}
+			d.doGraph(g, "shared", prefix)
+		default:
+			d.doGraph(d.randAcyclic(1+c.Intn(3), 2, false), "small", prefix)
+		}
+	}
+	// limits: oversized arrays, deep non-first nesting beyond the decoder's depth
+	for _, n := range []int{constants.MAX_ARRAY_SIZE, constants.MAX_ARRAY_SIZE + 1} {
+		var items []Val
+		for i := 0; i < n; i++ {
+			items = append(items, vBool(i%2 == 0))
+		}
+		d.doGraph(Graph{Objs: []Obj{{Kind: []string{"arr", "struct"}[n%2], Items: items}}, Root: vRef([]string{"arr", "struct"}[n%2], 0)}, "array-size-boundary", nil)
+	}
+	if !c.Quick() {
+		for _, k := range []int{types.MAX_COUNT, types.MAX_COUNT + 1} {
+			d.doGraph(d.chain(k, 1, false, vInt(1)), "decoder-depth-boundary", nil)
+		}
+	}
+
+	// cyclic graphs: a cycle at every position
+	nC := c.N(36, 200)
+	made := 0
+	for tries := 0; made < nC && tries < 20*nC; tries++ {
+		base := d.randAcyclic(1+c.Intn(5), 3, false)
+		if tries%4 == 0 {
+			base = d.chain(1+c.Intn(4), c.Intn(3), true, d.randPrim(false))
+		}
+		g, ok := d.addCycle(base, tries%3 == 0)
+		if !ok {
+			continue
+		}
+		made++
+		d.queueCyclic(g, "cyclic")
+	}
+	d.runPending()
+
+	// byte strings
+	nB := c.N(700, 6000)
+	var pool [][]byte
+	for i := 0; i < 40; i++ {
+		if b := d.serializeSpec(d.randAcyclic(c.Intn(5), 4, false)); b != nil {
+			pool = append(pool, b)
+		}
+	}
+	for i := 0; i < nB; i++ {
+		switch i % 4 {
+		case 0:
+			b := c.Bytes([]int{1, 2, 3, 5, 9, 17, 40}[c.Intn(7)])
+			b[0] = []byte{0x00, 0x01, 0x02, 0x80, 0x81, 0x82}[c.Intn(6)]
+			if len(b) > 1 && c.Intn(2) == 0 {
+				b[1] = byte(c.Intn(4))
+			}
+			d.doBytes(b, "random")
+		case 1, 2:
+			b := pool[c.Intn(len(pool))]
+			for k := 0; k <= c.Intn(3); k++ {
+				b = d.mutate(b)
+			}
+			d.doBytes(b, "mutated")
+		default:
+			if i%40 == 3 || c.Intn(3) > 0 {
+				// the big structured cases (depth and array boundaries) only now and then
+				b, kind := d.structuredBytes()
+				if (kind == "depth-boundary" || kind == "array-size-boundary") && i%40 != 3 {
+					b, kind = []byte{0x80, 0x01, 0x80, 0x00}, "nested-valid"
+				}
+				d.doBytes(b, kind)
+			} else {
+				d.doBytes(c.Bytes(c.Intn(12)), "random")
+			}
+		}
+	}
+}
+
+func (d *driver) replay(in input) {
+	switch in.Mode {
+	case "graph":
+		if in.G == nil {
+			return
+		}
+		if in.G.cyclic() {
+			for _, e := range []string{"Serialize", "BuildParamToNative"} {
+				pf := in.Prefill
+				if e != "Serialize" {
+					pf = 0
+				}
+				d.pending = append(d.pending, pendingProbe{in: in, probe: Probe{G: *in.G, Entry: e, Prefill: pf}})
+			}
+			return
+		}
+		d.doGraph(*in.G, "replay", hx.UnHex(in.Prefix))
+	case "bytes":
+		d.doBytes(hx.UnHex(in.Hex), "replay")
+	}
 }
